@@ -468,6 +468,8 @@ struct Slot {
     last_change: Instant,
     /// CPU seconds the worker (and its reaped children) had used at `last_change`
     cpu_at_change: f64,
+    /// (since when, CPU seconds then): the worker has used next to no CPU since that moment
+    idle: (Instant, f64),
     killed_for_hang: bool,
     generation: u64,
 }
@@ -537,6 +539,7 @@ impl<'a> Pool<'a> {
             last_seq: 0,
             last_change: Instant::now(),
             cpu_at_change: 0.0,
+            idle: (Instant::now(), 0.0),
             killed_for_hang: false,
             generation,
         });
@@ -746,17 +749,25 @@ fn run_pool(
             // has passed and it is blocked (all threads asleep, no CPU used), or when it
             // has made no progress for 8 x `timeout` of wall clock.
             let seq = slot.marks.read().0;
+            let cpu_now = proc_cpu_s(slot.child.id());
+            // the idle window restarts whenever the worker has burnt CPU
+            if cpu_now.is_none_or(|c| c - slot.idle.1 > 0.2) {
+                slot.idle = (now, cpu_now.unwrap_or(0.0));
+            }
             if seq != slot.last_seq {
                 slot.last_seq = seq;
                 slot.last_change = now;
-                slot.cpu_at_change = proc_cpu_s(slot.child.id()).unwrap_or(0.0);
+                slot.cpu_at_change = cpu_now.unwrap_or(0.0);
+                slot.idle = (now, cpu_now.unwrap_or(0.0));
             } else if now.duration_since(slot.last_change) > timeout {
                 let wall = now.duration_since(slot.last_change);
-                let cpu = proc_cpu_s(slot.child.id()).map(|c| c - slot.cpu_at_change);
-                // blocked: every thread of the worker sleeps, it has used next to no CPU since
-                // the case began (a starved worker is runnable, not asleep) and it is not
-                // waiting for a child process of its own
-                let blocked = cpu.is_some_and(|c| c < 0.2)
+                let cpu = cpu_now.map(|c| c - slot.cpu_at_change);
+                // blocked: every thread of the worker sleeps, it has used next to no CPU for
+                // `timeout` of wall clock (a starved worker is runnable, not asleep; a case
+                // may have worked for a while before it got stuck) and it is not waiting for
+                // a child process of its own
+                let blocked = cpu_now.is_some()
+                    && now.duration_since(slot.idle.0) > timeout
                     && proc_all_threads_asleep(slot.child.id())
                     && !proc_has_children(slot.child.id());
                 if cpu.is_none_or(|c| c > timeout.as_secs_f64()) || blocked || wall > timeout * 8 {
